@@ -1,6 +1,6 @@
 \* EXPECTED VIOLATION (F44): before the repair a watched-file deletion was never applied to the analysis
 CONSTANTS
- Docs = {"d1", "d2", "d3", "e", "n", "q", "o", "h", "u", "g"}
+ Docs = {"d1", "d2", "d3", "e", "n", "p", "q", "o", "h", "u", "g"}
  Mode = "seq"
  MaxEdits = 0
  MaxReqs = 2
